@@ -112,12 +112,99 @@ fn status_class(o: &RtOut) -> &'static str {
     }
 }
 
+fn sort_model(v: &crate::model::RValue) -> crate::model::RValue {
+    use crate::model::RValue;
+    match v {
+        RValue::Vec(xs) => {
+            let mut ys: Vec<RValue> = xs.iter().map(sort_model).collect();
+            ys.sort_by_key(|y| y.to_string());
+            RValue::Vec(ys)
+        }
+        RValue::Opt(x) => RValue::opt(sort_model(x)),
+        RValue::Record(fs) => RValue::Record(fs.iter().map(|(i, x)| (*i, sort_model(x))).collect()),
+        RValue::Variant(i, x) => RValue::Variant(*i, Box::new(sort_model(x))),
+        x => x.clone(),
+    }
+}
+
 pub fn run(ctx: &mut Ctx) {
     let n_types = reg::len();
     ctx.stats
         .extra
         .insert("corpus_types".into(), json!(n_types));
-    ctx.cases("roundtrip-with-history", 1.0, |ctx, rng| {
+    // several values of different types in ONE message, read back argument by argument on ONE deserializer: what a
+    // container's specialised path (primitive vectors, big-number vectors, text-keyed maps ...) leaves behind in the
+    // decoder must not reach the sibling that follows it
+    ctx.cases("multi-argument-roundtrip", 0.15, |ctx, rng| {
+        let nargs = 2 + rng.usize(3);
+        let tys: Vec<usize> = (0..nargs).map(|_| rng.usize(n_types)).collect();
+        let seed = rng.next();
+        let tys2 = tys.clone();
+        let r = on_thread(32 << 20, move || -> Result<(Vec<u8>, Vec<crate::model::RValue>, Vec<Result<crate::model::RValue, String>>, bool), String> {
+            let mut b = candid::ser::IDLBuilder::new();
+            let mut r2 = Rng::new(seed);
+            let mut models = Vec::new();
+            for i in &tys2 {
+                models.push(reg::with(*i, |t| t.arg_into(&mut b, &mut r2, 10))?);
+            }
+            let bytes = b.serialize_to_vec().map_err(|e| format!("error|{e}"))?;
+            let mut de = candid::de::IDLDeserialize::new(&bytes).map_err(|e| format!("error|{e}"))?;
+            let mut got = Vec::new();
+            for i in &tys2 {
+                match reg::with(*i, |t| t.get_from(&mut de)) {
+                    Ok(r) => got.push(r),
+                    Err(p) => return Err(format!("panic|{}", p.sig())),
+                }
+            }
+            let done = de.is_done() && de.done().is_ok();
+            Ok((bytes, models, got, done))
+        });
+        let names: Vec<String> = tys.iter().map(|i| reg::with(*i, |t| t.name())).collect();
+        let input = |bytes: &[u8]| json!({"types": names, "value_seed": seed, "bytes": hex(bytes)});
+        match r {
+            Err(p) => ctx.violation(&format!("panic-outside-catch|multi-argument|{}", p.location), &p.message, input(&[])),
+            Ok(Err(e)) => {
+                if e.starts_with("panic|") {
+                    ctx.violation(&format!("multi-argument|{e}"), &e, input(&[]));
+                } else {
+                    ctx.count("excluded:multi-argument-encode-error");
+                }
+            }
+            Ok(Ok((bytes, models, got, done))) => {
+                for (k, (m, g)) in models.iter().zip(got.iter()).enumerate() {
+                    let hashed = names[k].contains("Hash") || names[k].contains("BinaryHeap");
+                    match g {
+                        Err(e) => {
+                            ctx.violation(
+                                &format!("multi-argument|decode-error|after:{}", names[..k].last().map(|n| n.split('<').next().unwrap_or("")).unwrap_or("-")),
+                                &format!("argument {k} ({}) fails to decode after its siblings: {}", names[k], e.lines().next().unwrap_or("")),
+                                input(&bytes),
+                            );
+                            return;
+                        }
+                        Ok(v) => {
+                            let same = if hashed { sort_model(v) == sort_model(m) } else { v == m };
+                            if !same {
+                                ctx.violation(
+                                    &format!("multi-argument|roundtrip-mismatch|after:{}", names[..k].last().map(|n| n.split('<').next().unwrap_or("")).unwrap_or("-")),
+                                    &format!("argument {k} ({}): encoded {} decoded {}", names[k], m.to_string().chars().take(300).collect::<String>(), v.to_string().chars().take(300).collect::<String>()),
+                                    input(&bytes),
+                                );
+                                return;
+                            }
+                        }
+                    }
+                }
+                if !done {
+                    ctx.violation("multi-argument|leftover", "input left over after reading every argument at its own type", input(&bytes));
+                    return;
+                }
+                ctx.count("agree:multi-argument");
+                ctx.nontrivial(hash_str(&format!("multi|{names:?}")));
+            }
+        }
+    });
+    ctx.cases("roundtrip-with-history", 0.85, |ctx, rng| {
         let i = rng.usize(n_types);
         let seed = rng.next();
         let fuel = *rng.pick(&[1i64, 6, 20, 60]);
